@@ -933,6 +933,22 @@ def get_code(node: ast.AST | Range, source: str) -> str:
 
 
 def literal_value(node: ast.AST) -> bool:
+    """Evaluate a constant expression.
+
+    Raises:
+        ValueError: If the value of the expression is not known
+    """
+    try:
+        return _literal_value(node)
+    except ValueError:
+        raise
+    except Exception as error:
+        # For example 1 / 0, 1 < "a" or int("x"). Whatever the expression does at runtime, it does
+        # not have a known value.
+        raise ValueError(f"Cannot find a deterministic value: {error!r}") from error
+
+
+def _literal_value(node: ast.AST) -> bool:
     if has_side_effect(node, safe_callable_whitelist=constants.BUILTIN_FUNCTIONS):
         raise ValueError("Cannot find a deterministic value for a node with a side effect")
 
